@@ -289,6 +289,8 @@ func Do(h http.Handler, r *Request) *Response {
 				resp.Stack = string(debug.Stack())
 			}
 		}()
+		simrt.EnterServer()
+		defer simrt.LeaveServer()
 		h.ServeHTTP(w, hreq)
 	}()
 	if !w.wroteHeader {
